@@ -54,25 +54,36 @@ func (r *Registry) Add(soyfile *ast.SoyFileNode) error {
 		// soydoc just to get a template to compile is just stupid.  (There is a
 		// separate data ref check to ensure any variables used are declared as
 		// params, anyway).
-		sdn, ok := soyfile.Body[i-1].(*ast.SoyDocNode)
-		if !ok {
+		// (blanks may stand between the soydoc and its template tag when both are
+		// on one line.)
+		var sdn *ast.SoyDocNode
+		for j := i - 1; j >= 0; j-- {
+			if isBlankText(soyfile.Body[j]) {
+				continue
+			}
+			sdn, _ = soyfile.Body[j].(*ast.SoyDocNode)
+			break
+		}
+		if sdn == nil {
 			sdn = &ast.SoyDocNode{tn.Pos, nil}
 		}
 		hasSoyDocParams := len(sdn.Params) > 0
 
-		// Extract leading Header Params from the template body.
+		// Extract leading Header Params from the template body (blanks may stand
+		// in front of them and between them).
 		// Add them to Soy.Params for backwards compatibility.
 		var headerParams []*ast.HeaderParamNode
-		for _, n := range tn.Body.Nodes {
+		var headerEnd = 0 // the header params, and the blanks among them, are Nodes[:headerEnd]
+		for j, n := range tn.Body.Nodes {
 			if param, ok := n.(*ast.HeaderParamNode); ok {
-
 				headerParams = append(headerParams, param)
+				headerEnd = j + 1
 				sdn.Params = append(sdn.Params, &ast.SoyDocParamNode{
 					Pos:      param.Pos,
 					Name:     param.Name,
 					Optional: param.Optional,
 				})
-			} else {
+			} else if !isBlankText(n) {
 				break
 			}
 		}
@@ -88,7 +99,7 @@ func (r *Registry) Add(soyfile *ast.SoyFileNode) error {
 			}
 			return fmt.Errorf("template %v is defined more than once (in %v and %v)", tn.Name, file, other)
 		}
-		tn.Body.Nodes = tn.Body.Nodes[len(headerParams):]
+		tn.Body.Nodes = tn.Body.Nodes[headerEnd:]
 
 		r.Templates = append(r.Templates, Template{sdn, tn, ns})
 		r.sourceByTemplateName[tn.Name] = soyfile.Text
@@ -138,4 +149,10 @@ func (r *Registry) Filename(templateName string) string {
 		return ""
 	}
 	return f
+}
+
+// isBlankText reports whether the node is raw text of spaces and tabs only.
+func isBlankText(node ast.Node) bool {
+	var text, ok = node.(*ast.RawTextNode)
+	return ok && strings.Trim(string(text.Text), " \t") == ""
 }
